@@ -74,6 +74,12 @@ impl Bundle for HuffmanCode {
             sum_counts += x;
             *count = x as u8;
         }
+        if sum_counts == 0 || counts[0] != 0 {
+            // At least the sentinel symbol is needed, and no symbol has a zero-length code.
+            return Err(jxl_bitstream::Error::ValidationFailed(
+                "invalid Huffman code lengths",
+            ));
+        }
         let values = (0..sum_counts)
             .map(|_| {
                 bitstream
